@@ -127,12 +127,26 @@ def run_cases(args):
     rnd = random.Random(seed)
     cc = Cc(rnd)
     tr = []
+    def warm(fn, evs, classes):
+        """the same Rule objects (and events with the same ids and instants) were used in an earlier call on OTHER data"""
+        if rnd.random() >= 0.3 or not evs:
+            return
+        others = copy.deepcopy(evs)
+        pool = [v for e in others for v in e.data.values()] or [None]
+        for e in others:
+            e.data = {k: copy.deepcopy(rnd.choice(pool)) for k in e.data}
+        try:
+            fn(others, classes)
+        except Exception:
+            pass
+
     def one_case(c):
         op = c[0]
         inp = cc.mk(c[1], Event)
         pin = [cc.pev(e) for e in inp]
         if op == "categorize":
             classes = [(list(cl["cls"]), Rule(conc_rule(cl["rule"]))) for cl in c[2]]
+            warm(categorize, inp, classes)
             out = categorize(inp, classes)
             po = []
             for e in out:
@@ -143,6 +157,7 @@ def run_cases(args):
             tr.append({"op": op, "inp": pin, "classes": [{"cls": list(cl["cls"]), "rule": abs_rule(cl["rule"])} for cl in c[2]], "out": po})
         elif op == "tag":
             classes = [(cl["cls"], Rule(conc_rule(cl["rule"]))) for cl in c[2]]
+            warm(tag, inp, classes)
             out = tag(inp, classes)
             po = []
             for e in out:
